@@ -228,9 +228,44 @@ def wait_sites(F, R):
                             if x.get('k') == 'Member' and x.get('dk') == 'field' and x.get('name') in g:
                                 if x['name'] not in fields:
                                     fields.append(x['name'])
+                    lockparm = None
+                    if not lock_ok and isinstance(a0, dict) and a0.get('k') == 'Ref' and a0.get('dk') == 'parm' and 'std::unique_lock' in (a0.get('t') or ''):
+                        lockparm = a0['id']
                     out.append({'cls': cls, 'fn': fn, 'cv': cv[-1] if cv else None, 'call': n, 'lambda': lam, 'lock_ok': lock_ok,
-                                'fields': fields, 'disjuncts': disj, 'line': n.get('l'), 'variant': n.get('fn'), 'expanded': expanded})
-    return out
+                                'fields': fields, 'disjuncts': disj, 'line': n.get('l'), 'variant': n.get('fn'), 'expanded': expanded,
+                                'lockparm': lockparm})
+    # a wait that sits in a private helper which is handed the caller's lock (void waitForFreeSpace(std::unique_lock<std::mutex> & lock)) is the
+    # wait of every method that calls the helper: the rules talk about the public operations
+    res = []
+    for w in out:
+        h = w['fn']
+        if h.get('access') == 2 and w.get('lockparm') is not None:
+            pidx = [i for i, p_ in enumerate(h.get('params', [])) if p_['id'] == w['lockparm']]
+            moved = False
+            for m in methods_of(F, w['cls']):
+                if m is h:
+                    continue
+                g, cvs, mtx = guarded_fields(F, w['cls'])
+                lockvars = {}
+                for n in walk(m['body']):
+                    if n.get('k') == 'Decl':
+                        vid = is_lock_decl(n, mtx)
+                        if vid is not None:
+                            for v in n['vars']:
+                                if v['id'] == vid:
+                                    lockvars[vid] = v
+                for n in walk(m['body']):
+                    if n.get('k') == 'Call' and n.get('callee') == h['name'] and n.get('csig', h['sig']) == h['sig'] and pidx and len(n.get('args', [])) > pidx[0]:
+                        a = strip_all_casts(n['args'][pidx[0]])
+                        ok = isinstance(a, dict) and a.get('k') == 'Ref' and a.get('id') in lockvars and lockvars[a['id']]['t'].startswith('std::unique_lock')
+                        w2 = dict(w)
+                        w2.update({'fn': m, 'line': n.get('l'), 'lock_ok': ok, 'via_helper': h['name'], 'helper_call': n})
+                        res.append(w2)
+                        moved = True
+            if moved:
+                continue
+        res.append(w)
+    return res
 
 
 def expand_pred(e, F, cls, fn, depth=0):
@@ -1357,12 +1392,21 @@ def Q(F, rep, R, FL):
     rep.count('Q3')
     wr = [f for f in methods_of(F, cls) if f['simple'] == 'write']
     atoms = []
-    for f in wr:
-        for n in walk(f['body']):
-            if n.get('k') == 'Lambda':
-                for x in walk(n['body']):
-                    if x.get('k') == 'Bin' and x.get('op') in ('<', '<=', '>', '>='):
-                        atoms.append((expr_str(x['lhs']), x['op'], expr_str(x['rhs'])))
+    NEG = {'<': '>=', '<=': '>', '>': '<=', '>=': '<'}
+    for w in wait_sites(F, R):
+        if w['cls'] != cls or w['fn']['simple'] != 'write':
+            continue
+        # the disjuncts of the (helper-expanded) predicate, negations pushed into the comparison:  !(size() >= cap)  is  size() < cap
+        for d in w['disjuncts']:
+            x = strip_all_casts(d)
+            neg = False
+            while isinstance(x, dict) and (x.get('k') == 'Paren' or (x.get('k') == 'Un' and x.get('op') == '!')):
+                if x.get('k') == 'Un':
+                    neg = not neg
+                x = strip_all_casts(x.get('sub'))
+            if isinstance(x, dict) and x.get('k') == 'Bin' and x.get('op') in NEG:
+                op = NEG[x['op']] if neg else x['op']
+                atoms.append((expr_str(x['lhs']).replace('this.', ''), op, expr_str(x['rhs']).replace('this.', '')))
     ok = any((a[0] == 'm_queue.size()' and a[1] == '<' and a[2] == 'm_bufferSize') or
              (a[0] == 'm_bufferSize' and a[1] == '>' and a[2] == 'm_queue.size()') for a in atoms)
     rep.ob('Q3', 'write|capacity-exact', ok, rep.fn_site(wr[0]) if wr else None,
